@@ -28,7 +28,8 @@ for d in sorted(glob.glob(root + '/*')):
     np_ = os.path.join(d, 'agent_notes.txt')
     if os.path.exists(np_):
         notes = open(np_).read()
-    prop = re.match(r'(C\d+)', name).group(1)
+    pm = re.match(r'(C\d+)', name)
+    prop = pm.group(1) if pm else (runs[0]["check"] if runs else "?")
     old = {}
     mp = os.path.join(d, 'meta.json')
     if os.path.exists(mp):
@@ -39,7 +40,7 @@ for d in sorted(glob.glob(root + '/*')):
     meta = {
         "name": name,
         "property": prop,
-        "origin": "independent sub-agent given only the property record and a scratch worktree of /repo",
+        "origin": "independent sub-agent given only the property record(s) and a scratch worktree of /repo" + (" (adversarial round: asked for rare corners; round-4 agent B also read the author's private notes outside /verif, so it is not fully independent)" if name.startswith("B_") else (" (adversarial round: asked for rare corners)" if "_agent" in name and not name.startswith("C") or re.search(r"_agent[456]$", name) else "")),
         "what_it_needs_to_manifest": notes.strip()[:1500],
         "confirmed_by_me": {
             "existing_suite_with_change": rc('suite'),
